@@ -52,6 +52,11 @@ type Actor struct {
 	// for), consume through ReadByte, and keep asking a few times at the end
 	UseByte bool
 	RetErr  bool // return an error to the library after consuming
+	// NegDiscard > 0: before leaving, a Peek/Discard consumer steps "back" with Discard(-NegDiscard),
+	// as a forward-only value reader does when two values of a directory overlap (the library's own
+	// Exif reader does exactly this). bufio.Reader answers ErrNegativeCount; whatever view the
+	// library hands out must not move, and must not change what it believes to be left.
+	NegDiscard int
 	Inv     []*Invocation
 	MaxRead int // safety cap per invocation
 	// Probe, when set, is called at entry ("enter") and exit ("exit") of every invocation with
@@ -213,6 +218,9 @@ func (a *Actor) Run(r io.Reader, header string, declared int) error {
 				break
 			}
 		}
+	}
+	if a.NegDiscard > 0 && canPeek {
+		pd.Discard(-a.NegDiscard)
 	}
 	if a.Dev != nil && a.Dev.Yield != nil {
 		a.Dev.Yield("actor-exit")
